@@ -17,6 +17,8 @@ structure Diff.WF (d : Diff) : Prop where
   depRepDisj : ∀ a, a ∈ d.deployed.map (·.1) → a ∉ d.replaced.map (·.1)
   noSys : ∀ a, isSystem a = true →
     a ∉ d.deployed.map (·.1) ∧ a ∉ d.replaced.map (·.1) ∧ a ∉ d.nonces.map (·.1)
+  /-- class definitions supplied without declaration are those of contracts the diff deploys -/
+  extraOK : ∀ c ∈ d.extraClasses, c ∈ d.deployed.map (·.2)
 
 theorem nodupKeys_sound {β : Type} (l : List (Nat × β)) (h : nodupKeys l = true) : (l.map (·.1)).Nodup := by
   induction l with
@@ -34,8 +36,8 @@ theorem nodupKeys_sound {β : Type} (l : List (Nat × β)) (h : nodupKeys l = tr
 /-- the executable check implies the hypothesis of the theorems -/
 theorem Diff.wfb_sound (d : Diff) (h : d.wfb = true) : d.WF := by
   simp only [Diff.wfb, Bool.and_eq_true] at h
-  obtain ⟨⟨⟨⟨⟨⟨⟨⟨h1, h2⟩, h3⟩, h4⟩, h5⟩, h6⟩, h7⟩, h8⟩, h9⟩ := h
-  refine ⟨nodupKeys_sound _ h1, ?_, nodupKeys_sound _ h3, nodupKeys_sound _ h4, nodupKeys_sound _ h5, ?_, ?_⟩
+  obtain ⟨⟨⟨⟨⟨⟨⟨⟨⟨h1, h2⟩, h3⟩, h4⟩, h5⟩, h6⟩, h7⟩, h8⟩, h9⟩, h10⟩ := h
+  refine ⟨nodupKeys_sound _ h1, ?_, nodupKeys_sound _ h3, nodupKeys_sound _ h4, nodupKeys_sound _ h5, ?_, ?_, ?_⟩
   · intro p hp
     exact nodupKeys_sound _ (List.all_eq_true.mp h2 p hp)
   · intro a ha hr
@@ -58,6 +60,10 @@ theorem Diff.wfb_sound (d : Diff) (h : d.wfb = true) : d.WF := by
       obtain ⟨p, hp, rfl⟩ := List.mem_map.mp hm
       have := List.all_eq_true.mp h9 p hp
       simp [ha] at this
+  · intro c hc
+    have := List.all_eq_true.mp h10 c hc
+    obtain ⟨p, hp, he⟩ := List.any_eq_true.mp this
+    exact List.mem_map.mpr ⟨p, hp, by simpa using he⟩
 
 /-- the value a diff assigns to a history key (`writeHistory`: deployed is written after
 replaced) -/
